@@ -477,7 +477,7 @@ def fail_run(case, ctx):
 def stages(tier):
     return [
         {"name": "hist", "kind": "hyp", "strategy": hist_strategy, "run": hist_run,
-         "examples": {"quick": 4000, "thorough": 50000}, "shards": 16},
+         "examples": {"quick": 4000, "thorough": 120000}, "shards": 16},
         {"name": "fail", "kind": "hyp", "strategy": fail_strategy, "run": fail_run,
-         "examples": {"quick": 2000, "thorough": 30000}, "shards": 16},
+         "examples": {"quick": 2000, "thorough": 80000}, "shards": 16},
     ]
